@@ -11,7 +11,7 @@ import numpy as np
 import z3
 
 from pyvc import sym
-from pyvc.sym import lift, frac_eq
+from pyvc.sym import lift, frac_eq, cfrac_eq
 from pyvc.interp import PyRaise, _det_inv
 from pyvc.oblig import obligation, verify, bounded, Goal, merge
 from .common import stable_rng, quick
@@ -690,6 +690,96 @@ def ob_altmin_structure():
                 continue
             goals.append(Goal("receiver %d: W_k^H (H_kk F_k) == 1" % k, _meq(np.dot(w, np.dot(H[k, k], Fn[k])), np.eye(1, dtype=object))))
             goals.append(Goal("receiver %d: W_k^H C_k == 0 (the interference subspace is nulled)" % k, _meq(np.dot(w, Cs[k]), np.zeros((1, 1), dtype=object))))
+        return goals
+    return verify(body, check_side=False, timeout_ms=120000)
+
+
+@obligation("minleakage_maxsinr/structure_of_the_updates", params=[{"solver": s} for s in ("MinLeakageIASolver",)], timeout=300,
+            desc="one update of the receive filters and of the precoders (K = 2, 2 x 2 complex symbolic channels with symbolic path loss, one "
+                 "stream each, symbolic powers, precoders / filters of unit norm) with leig resp. solve under contract.  MinLeakage: W_k is what "
+                 "leig returns (Ns vectors) for EXACTLY the interference covariance of receiver k on the links with their path loss and the "
+                 "power-scaled precoders; F_k is what leig returns for the covariance of the reciprocal network sum_{l != k} P_l H_lk^H W_l "
+                 "W_l^H H_lk.  (The MaxSINR update B_kl^-1 H_kk V_kl with its two nested normalisations exceeds the normaliser's budget: bounded.)")
+def ob_updates_structure(solver):
+    def body(c, it):
+        import pyphysim.ia.algorithms as alg
+        import pyphysim.channels.multiuser as mu
+        import pyphysim.util.misc as misc
+        from .C20 import _meq
+        draws = []
+        _install_models(c, it, draws)
+        ch = it.call(mu.MultiUserChannelMatrix, [])
+        it.call(it.getattr(ch, "randomize"), [2, 2, 2])
+        it.call(it.getattr(ch, "set_pathloss"), [_pmat(c, "PL", 2, 2)])
+        nv = c.var("nv", "real")
+        c.assume(nv > 0)
+        it.setattr(ch, "noise_var", nv)
+        H = it.getattr(ch, "H")
+        s = it.call(getattr(alg, solver), [ch])
+        F0 = np.empty(2, dtype=object)
+        for k in range(2):
+            F0[k] = _cmat(c, "F%d" % k, 2, 1)
+        P = [c.var("P0", "real"), c.var("P1", "real")]
+        c.assume((P[0] > 0) & (P[1] > 0))
+        it.call(it.getattr(s, "set_precoders"), [F0, None, list(P)])
+        fF = [np.asarray(x, dtype=object) for x in it.getattr(s, "full_F")]
+        goals = []
+        if solver == "MinLeakageIASolver":
+            leigs = []
+
+            def m_leig(interp, A, n):
+                V = _cmat(c, "L%d" % len(leigs), np.shape(A)[0], n)
+                # callee postcondition: orthonormal vectors
+                c.assume(sum(_abs2(x) for x in V.flat) == 1)
+                leigs.append((np.asarray(A, dtype=object), n, V))
+                return V, None
+            it.models["pyphysim.util.misc:leig"] = m_leig
+            it.models[misc.leig] = m_leig
+            it.call(it.getattr(s, "_updateW"), [])
+            goals.append(Goal("one least-subspace request per receiver, Ns vectors", len(leigs) == 2 and all(n == 1 for _, n, _ in leigs)))
+            if len(leigs) != 2:
+                return goals
+            W = [leigs[k][2] for k in range(2)]
+            Q = []
+            for k in range(2):
+                A = np.dot(H[k, 1 - k], fF[1 - k])
+                Q.append(np.dot(A, _conjT(A)) + np.eye(2, dtype=object) * nv)
+                goals.append(Goal("receiver %d: leig is asked for the covariance of the interference (plus noise) it receives" % k, _meq(leigs[k][0], Q[k])))
+                goals.append(Goal("receiver %d: W_k is what leig returned" % k,
+                                  all(x is y for x, y in zip(np.asarray(it.getattr(s, "_W")[k], dtype=object).flat, W[k].flat))))
+            n0 = len(leigs)
+            it.call(it.getattr(s, "_updateF"), [])
+            goals.append(Goal("one least-subspace request per transmitter", len(leigs) == n0 + 2))
+            if len(leigs) == n0 + 2:
+                for k in range(2):
+                    l = 1 - k
+                    B = np.dot(_conjT(H[l, k]), W[l])
+                    goals.append(Goal("transmitter %d: leig is asked for P_l H_lk^H W_l W_l^H H_lk (reciprocal network)" % k,
+                                      _meq(leigs[n0 + k][0], np.dot(B, _conjT(B)) * P[l])))
+            return goals
+        # MaxSINR
+        it.call(it.getattr(s, "set_receive_filters"), [None, F0])
+        Bs = {}
+        for k in range(2):
+            Bs[k] = _cmat(c, "B%d" % k, 2, 2)
+
+        def m_B(interp, self, k, *a, **kw):
+            out = np.empty(1, dtype=object)
+            out[0] = Bs[int(k)]
+            return out
+        it.models["pyphysim.ia.iabase:IASolverBaseClass._calc_Bkl_cov_matrix_all_l"] = m_B
+        it.call(it.getattr(s, "_updateW"), [])
+        Wn = it.getattr(s, "_W")
+        from pyvc.interp import _det_inv
+        for k in range(2):
+            adj, det = _det_inv(Bs[k])
+            raw = np.dot(np.frompyfunc(lambda x: x / det, 1, 1)(adj), np.dot(H[k, k], F0[k]))
+            w = np.asarray(Wn[k], dtype=object)
+            goals.append(Goal("receiver %d: filter shape (Nr, Ns)" % k, w.shape == (2, 1)))
+            if w.shape != (2, 1):
+                continue
+            goals.append(Goal("receiver %d: filter parallel to B_kl^-1 H_kk V_kl" % k, cfrac_eq(w[0, 0] * raw[1, 0], w[1, 0] * raw[0, 0])))
+            goals.append(Goal("receiver %d: filter has unit norm" % k, frac_eq(sum(_abs2(x) for x in w.flat), 1)))
         return goals
     return verify(body, check_side=False, timeout_ms=120000)
 
